@@ -188,7 +188,7 @@ def main(tier, replay=None):
     for t in traces:
         for l, ev in enumerate(t["ev"], 1):
             n_ev += 1
-            kind, detail = verdicts[(t["id"], l)]
+            kind, detail = verdicts[(t["id"], l, "elim")]
             counts[kind + ":" + (detail if kind != "violation" else detail.split(":")[0])] = counts.get(kind + ":" + (detail if kind != "violation" else detail.split(":")[0]), 0) + 1
             for tn in ev["_tactics"]:
                 tactic_rows[str(tn)] = tactic_rows.get(str(tn), 0) + 1
